@@ -175,6 +175,15 @@ class Acc:
 
     # -- export ----------------------------------------------------------------------------------------------
     def export(self):
+        if self.evaluations == 0 and self.sigcount:
+            # a chunk that counts its cases in bulk at the end and was stopped early (ChunkAbort): every recorded
+            # violation came from an executed case
+            self.evaluations = max(self.transitions, sum(self.sigcount.values()))
+            self.counters["_bulk_nt"] += self.evaluations
+        if self.evaluations and not self.states:
+            self.states = 1  # (stopped before the chunk counted the state it was exploring)
+        if self.evaluations and not self.transitions:
+            self.transitions = self.evaluations
         return {
             "key": self.key,
             "evaluations": self.evaluations,
